@@ -1,4 +1,5 @@
 //@ property: C01
+//@ also: C19
 //@ crate: arrow-buffer
 //@ target: arrow-buffer/src/builder/boolean.rs
 // Child module of arrow-buffer/src/builder/boolean.rs. One-step inductive obligations: from an ARBITRARY
